@@ -422,6 +422,10 @@ def gen_class_spec(src, profile=None):
             sub["mixin_first"] = True  # class Sub(Mixin, Host)
         if p["allow_new_shapes"] and src.chance(0.35):
             sub["own_new"] = True  # the subclass has a cooperative __new__ of its own (calls super().__new__(cls))
+        elif p["allow_new_shapes"] and host.get("new_shape") in (None, "mixin") and src.chance(0.3):
+            # class Sub(Host, LateNew): instance creation comes from a base that stands AFTER the (lazily bootstrapped)
+            # parent in the subclass's MRO, the parent itself having no __new__ anywhere above it
+            sub["late_new_base"] = True
         if skind == "spec":
             # keep per-attribute do_not_copy unambiguous across the spec subclass
             dnc = [a["name"] for a in attrs if a.get("flags", {}).get("do_not_copy")]
@@ -1100,13 +1104,20 @@ def materialise(spec, faults, name_suffix=""):
                     return object.__new__(cls)  # (does not go through the parents' __new__ at all)
                 return super(classes["sub"], cls).__new__(cls)
             sns["__new__"] = sub_new
+        late = ()
+        if sub.get("late_new_base"):
+            class LateNew:
+                def __new__(cls, *args, **kwargs):
+                    new_log.append("late:" + _nm(cls) + _sig(args, kwargs))
+                    return object.__new__(cls)
+            late = (LateNew,)
         if sub.get("mixin_first"):
             class SubMixin:
                 def describe_sub(self):
                     return type(self).__name__
-            Sub = type("Sub" + name_suffix, (SubMixin, Parent), sns)
+            Sub = type("Sub" + name_suffix, (SubMixin, Parent) + late, sns)
         else:
-            Sub = type("Sub" + name_suffix, (Parent,), sns)
+            Sub = type("Sub" + name_suffix, (Parent,) + late, sns)
         if sub["kind"] == "spec":
             Sub = spec_class(**sub.get("options", {}))(Sub)
         classes["sub"] = Sub
